@@ -38,6 +38,17 @@ def items(tier, seed):
                   'forever': [True]},
         top_open={'window': [1]} if th else {}, nest_open={},
         extra=_base.X_THASH, k=1, bound=3 if th else 2)
+    # the verdict must not depend on how the shutdown phase goes
+    SLOW = [[('a', 'sd', 3), ('top', 'sdt', 0)], [('a', 'sd', 3)],
+            [('x', 'sd', 3), ('n', 'sdt', 0)],
+            [('x', 'sd', 3), ('n', 'sdt', 0), ('n', 'critical', True)],
+            [('a', 'sd', 1), ('a', 'k', 'coro'), ('top', 'sdt', None)]]
+    yield from spaces.mk(
+        ['flat2', 'nest21', 'nest22'], force='product',
+        fargs={'parts': [('mods', {'alts': SLOW}), ('mods', {'alts': TOPS})]},
+        job_open={'out': ['raise'], 'critical': [True], 'dur': [0, 2]},
+        top_open={'timeout': [1, 2]}, nest_open={'timeout': [1]},
+        k=2 if th else 1, bound=2)
     # every position of a timeout relative to completions, critical raises
     yield from spaces.mk(
         ['flat123'], force='mods',
